@@ -227,30 +227,29 @@ example : specDial ⟨.udp, .plain "dns.example".toList, none, [], .host (.plain
       [("dns.example".toList, "10.1.2.3".toList), ("127.0.0.9".toList, "127.0.0.9".toList)]⟩
     ⟨"ok".toList, "tcp4|127.0.0.9:PORT;udp4|127.0.0.9:PORT".toList, none, none, none⟩ = true := by decide
 
-/-- The known corner that is *outside* the property (`dial_addr` is documented as "an IP or a domain,
-    port optional"; a bracketed IPv6 literal without port is neither): the brackets are kept and
-    bracketed again, the result `[[x]]:port` cannot be dialled (no connection is made at all). -/
-theorem bracketed_dial_addr_without_port_corner (url x d : Str) (hx : isV6Body x = true) :
-    getDialAddr url ('[' :: x ++ [']']) d = '[' :: '[' :: x ++ ']' :: ']' :: ':' :: d := by
-  have f := v6_facts hx
-  have hl : lastIndexOf ':' ('[' :: x ++ [']']) ≠ none := by
-    obtain ⟨a, b, e, nb⟩ := exists_last_split f.colon
-    have e2 : '[' :: x ++ [']'] = ('[' :: a) ++ ':' :: (b ++ [']']) := by simp [e]
-    rw [e2, lastIndexOf_append]
-    · simp
-    · simp [nb]
-  have hi : indexOf ']' ('[' :: x ++ [']']) = some (x.length + 1) := by
-    have := indexOf_append (c := ']') (a := '[' :: x) [] (by simp [f.rb])
-    simpa using this
-  have hs : splitHostPort ('[' :: x ++ [']']) = .error .missingPort := by
-    unfold splitHostPort
-    cases h : lastIndexOf ':' ('[' :: x ++ [']']) with
-    | none => exact absurd h hl
-    | some i =>
-      simp only [List.cons_append] at hi
-      simp [hi]
-  simp only [List.cons_append] at hs
-  simp [getDialAddr, hasAtPrefix, trySplitHostPort, hs, joinHostPort, f.colon]
+/-- ★ `dial_addr` given as an IPv6 address in brackets without port (the former "known corner", now
+    repaired in the code): that address with the default port of the URL's scheme is dialled; server
+    name and HTTP host still derive from the URL. -/
+theorem dial_override_bracketed (sch : Scheme) (host : Host) (port : Option Str) (path : Str)
+    (x : Str) (ns : List (Str × Str))
+    (w : (Case.mk sch host port path (.bracketed x) ns).wf = true) :
+    ∃ plan plan0,
+      newUpstream (Case.mk sch host port path (.bracketed x) ns).addr ('[' :: x ++ [']']) = .ok plan ∧
+      newUpstream (Case.mk sch host port path .none ns).addr [] = .ok plan0 ∧
+      plan.dialAddr = joinHostPort x sch.defaultPort ∧
+      plan.network = sch.sock ∧
+      plan.serverName = plan0.serverName ∧ plan.httpHost = plan0.httpHost := by
+  have w0 : (Case.mk sch host port path .none ns).wf = true := by
+    simp only [Case.wf, Dial.wf, Bool.and_eq_true] at w ⊢
+    exact ⟨⟨⟨w.1.1.1, w.1.1.2⟩, trivial⟩, w.2⟩
+  refine ⟨_, _, newUpstream_case w, newUpstream_case w0, ?_, ?_, ?_, ?_⟩
+  · simp [Case.expPlan, Case.expDial]
+  · exact expNet_inet (by simp) (by simp)
+  · simp [Case.expPlan, Case.expServerName]
+  · simp [Case.expPlan, Case.expHttpHost]
+
+example : getDialAddr "dns.example".toList "[2001:db8::1]".toList "853".toList = "[2001:db8::1]:853".toList := by
+  decide
 
 /-- ★ the executable specification used as oracle for the real `NewUpstream` holds of the model on
     every case (every scheme × host form × port × path × dial_addr form × name service). -/
@@ -682,7 +681,7 @@ theorem pins_dialaddr :
     Facts.addr_gdaUnixCond = "strings.HasPrefix(dialAddr, \"@\")" ∧
     Facts.addr_netUnixCond = "strings.HasPrefix(dialAddr, \"@\")" ∧
     Facts.addr_gdaPortConds = 2 ∧
-    Facts.addr_gdaJoin0 = "return net.JoinHostPort(host, defaultPort)" ∧
+    Facts.addr_gdaJoin0 = "return net.JoinHostPort(tryTrimIpv6Brackets(host), defaultPort)" ∧
     Facts.addr_gdaJoin1 = "return net.JoinHostPort(host, defaultPort)" := by decide
 
 /-- `NewUpstream`: scheme defaulting, helper schemes, the per-scheme default ports (in source order:
